@@ -43,7 +43,9 @@ RULE = ("Cases are K=2-8 simulation programs: a generated planetary system (or a
         "run alone, bit for bit.  server: generated usleep / request offsets / bursts; oracle: each HTTP body parses as a "
         "complete snapshot, equals (all fields except status and dt, which the exit check between two steps may change) "
         "the stream the run's own heartbeat recorded at that (t, steps_done), continues to the bitwise same final "
-        "state, and the served run's final state equals an unserved twin's.  Non-trivial = (interleave) >= 2 switches "
+        "state, and the served run's final state equals an unserved twin's; server_sync: the same on short runs with "
+        "1000-2500 test particles and a client requesting continuously; server_fd: EBADF on a descriptor owned by the "
+        "client or a watcher thread.  Every program starts with 1-3 steps.  Non-trivial = (interleave) >= 2 switches "
         "between different simulations before the last one finishes and (threads) >= 2 different integrator types; "
         "(server) >= 1 response taken strictly inside the run (0 < steps_done < final); distinct by case hash.")
 ASSUMPTIONS = [
